@@ -1249,6 +1249,8 @@ func verifyBlindedMessages(proofs cashu.Proofs, blindedMessages cashu.BlindedMes
 		return cashu.BuildCashuError(err.Error(), cashu.StandardErrCode)
 	}
 
+	firstSecret := secret
+
 	// pubkeys will hold list of public keys that can sign
 	pubkeys, err := nut11.PublicKeys(secret)
 	if err != nil {
@@ -1273,6 +1275,13 @@ func verifyBlindedMessages(proofs cashu.Proofs, blindedMessages cashu.BlindedMes
 		// all flags need to be SIG_ALL
 		if !nut11.IsSigAll(secret) {
 			return nut11.AllSigAllFlagsErr
+		}
+
+		// the kind, data and tags need to be the same as in the first proof.
+		// The outputs are verified against the conditions of the first proof only
+		if secret.Kind != firstSecret.Kind || secret.Data.Data != firstSecret.Data.Data ||
+			!reflect.DeepEqual(secret.Data.Tags, firstSecret.Data.Tags) {
+			return nut11.SigAllCondsMustEqualErr
 		}
 
 		currentSignaturesRequired := 1
